@@ -319,6 +319,19 @@ kernel('G14_cache', 'bisturi/codegen.py', [('CodeGenerator', 'generate_code')], 
        extra='Definition cache_template_matched : bool := true.')
 kernel('G11_codegen', 'bisturi/codegen.py', [('CodeGenerator', '__init__'), ('CodeGenerator', 'generate_code'), ('CodeGenerator', 'generate_unrolled_code_for_descriptor_sync'), ('CodeGenerator', 'generate_code_for_fixed_fields'), ('CodeGenerator', 'generate_code_for_fixed_fields_with_struct_code'), ('CodeGenerator', 'generate_code_for_variable_fields'), ('CodeGenerator', 'generate_code_for_fixed_fields_without_struct_code'), ('CodeGenerator', 'generate_code_for_loop_pack'), ('CodeGenerator', 'generate_code_for_loop_unpack'), (None, 'indent')], 'CodegenGen', {'STMTS_cache': H(None, [], {}, None)}, extra='Definition codegen_template_matched : bool := true.')
 
+kernel('G12_regexp', 'bisturi/field.py', [('Int', 'pack_regexp'), ('Data', 'pack_regexp'), ('Bits', 'pack_regexp')], 'RegexpGen', {},
+       extra='Definition regexp_template_matched : bool := true.')
+kernel('G12b_regexp_frags', 'bisturi/fragments.py',
+       [('FragmentRegEx', '__init__'), ('FragmentRegEx', '__len__'), ('FragmentsOfRegexps', '__init__'), ('FragmentsOfRegexps', 'append'),
+        ('FragmentsOfRegexps', 'extend'), ('FragmentsOfRegexps', 'insert'), ('FragmentsOfRegexps', 'assemble_regexp')], 'RegexpFragsGen', {},
+       extra='Definition regexp_frags_template_matched : bool := true.')
+kernel('G12c_regexp_packet', 'bisturi/packet.py', [('Packet', 'as_regular_expression'), ('Packet', 'as_regular_expression_impl')],
+       'RegexpPacketGen', {}, extra='Definition regexp_packet_template_matched : bool := true.')
+kernel('G12d_pattern_matching', 'bisturi/pattern_matching.py',
+       [('Any', '__init__'), ('Any', '__eq__'), ('Any', '__ne__'), ('Any', 'eq_for_any'), ('Any', 'ne_for_any'), ('Any', 'eq_for_regexp'),
+        ('Any', 'ne_for_regexp'), (None, 'anything_like'), (None, 'filter_like'), (None, 'filter')], 'PatternMatchingGen', {},
+       extra='Definition pattern_matching_template_matched : bool := true.')
+
 
 def translate_kernel(kid):
     k = KERNELS[kid]
